@@ -826,7 +826,8 @@ where
                 .copy_from_slice(&new_cell.full_data());
             *old_cell.metadata_mut() = *new_cell.metadata();
 
-            self.free_space_pointer_down(free_bytes);
+            // The freed bytes sit at the tail of the old cell, not next to the free area:
+            // they are fragmentation (reclaimed by defragment), the write pointer must not move.
             self.add_free_space(free_bytes);
 
             return Ok(owned_cell);
